@@ -418,6 +418,9 @@ func computeAliases(p *load.Program) {
 		defs := map[types.Object][]ast.Expr{} // := / var definitions with a 1:1 value
 		unstable := map[types.Object]bool{}   // reassigned, inc/dec'd, address taken, multi-value defined
 		rangeVar := map[types.Object]bool{}
+		addrTaken := map[types.Object]bool{}    // &x somewhere, or captured and assigned in a function literal
+		varDeps := map[types.Object][]types.Object{} // candidate alias -> reassigned locals its definition reads
+		var curVarDeps []types.Object
 		fieldWritten := map[types.Object]bool{} // fields assigned anywhere in the function
 		elemWritten := map[types.Object]bool{}  // variables (or fields) whose elements are assigned
 		noteWrite := func(l ast.Expr) {
@@ -490,9 +493,30 @@ func computeAliases(p *load.Program) {
 					if id, ok := ast.Unparen(x.X).(*ast.Ident); ok {
 						if o := astx.Obj(info, id); o != nil {
 							unstable[o] = true
+							addrTaken[o] = true
 						}
 					}
 				}
+			case *ast.FuncLit:
+				// a variable assigned inside a literal can change whenever the literal runs
+				ast.Inspect(x.Body, func(m ast.Node) bool {
+					mark := func(l ast.Expr) {
+						if id, ok := ast.Unparen(l).(*ast.Ident); ok {
+							if o := astx.Obj(info, id); o != nil && o.Pos() < x.Pos() {
+								addrTaken[o] = true
+							}
+						}
+					}
+					switch y := m.(type) {
+					case *ast.AssignStmt:
+						for _, l := range y.Lhs {
+							mark(l)
+						}
+					case *ast.IncDecStmt:
+						mark(y.X)
+					}
+					return true
+				})
 			}
 			return true
 		})
@@ -517,7 +541,7 @@ func computeAliases(p *load.Program) {
 			return o.Pos() < body.Pos()
 		}
 		isIrcMessageField := func(fv *types.Var) bool {
-			return fv != nil && fv.Pkg() != nil && strings.HasSuffix(fv.Pkg().Path(), "sorcix/irc")
+			return fv != nil && fv.Pkg() != nil && fv.Pkg().Path() == pathIRC
 		}
 		var stable func(e ast.Expr, depth int) bool
 		stable = func(e ast.Expr, depth int) bool {
@@ -539,7 +563,19 @@ func computeAliases(p *load.Program) {
 				if _, ok := o.(*types.Const); ok {
 					return true
 				}
-				return stableVar(o) && !elemWritten[o]
+				if stableVar(o) && !elemWritten[o] {
+					return true
+				}
+				// a local that is assigned more than once (declared empty and filled under a condition, …) but whose address is
+				// never taken: stable from the definition of the alias on if no assignment to it is reachable from there —
+				// checked on the CFG below, recorded here
+				if isLocal(o) && unstable[o] && !addrTaken[o] && !elemWritten[o] && !rangeVar[o] {
+					if _, isBasic := o.Type().Underlying().(*types.Basic); isBasic {
+						curVarDeps = append(curVarDeps, o)
+						return true
+					}
+				}
+				return false
 			case *ast.SelectorExpr:
 				if _, ok := info.Selections[x]; !ok {
 					_, isConst := info.Uses[x.Sel].(*types.Const)
@@ -608,11 +644,17 @@ func computeAliases(p *load.Program) {
 			if len(d) != 1 || unstable[o] || !isLocal(o) || d[0] == nil {
 				continue
 			}
-			curDeps = nil
+			curDeps, curVarDeps = nil, nil
 			if stable(d[0], 0) {
 				astx.Alias[o] = d[0]
 				if len(curDeps) > 0 {
 					fieldDeps[o] = append([]*types.Var{}, curDeps...)
+				}
+				if len(curVarDeps) > 0 {
+					varDeps[o] = append([]types.Object{}, curVarDeps...)
+					if fieldDeps[o] == nil {
+						fieldDeps[o] = []*types.Var{}
+					}
 				}
 			}
 		}
@@ -704,6 +746,29 @@ func computeAliases(p *load.Program) {
 						if writesField(v.Node, fv) {
 							ok = false
 						}
+					}
+					for _, vo := range varDeps[o] {
+						ast.Inspect(v.Node, func(m ast.Node) bool {
+							switch y := m.(type) {
+							case *ast.AssignStmt:
+								for _, l := range y.Lhs {
+									if id, isID := ast.Unparen(l).(*ast.Ident); isID && astx.Obj(info, id) == vo {
+										ok = false
+									}
+								}
+							case *ast.IncDecStmt:
+								if id, isID := ast.Unparen(y.X).(*ast.Ident); isID && astx.Obj(info, id) == vo {
+									ok = false
+								}
+							case *ast.RangeStmt:
+								for _, e := range []ast.Expr{y.Key, y.Value} {
+									if id, isID := e.(*ast.Ident); isID && astx.Obj(info, id) == vo {
+										ok = false
+									}
+								}
+							}
+							return true
+						})
 					}
 				}
 			}
